@@ -96,6 +96,8 @@ Proof.
   - reflexivity.
   - reflexivity.
   - reflexivity.
+  - reflexivity.
+  - reflexivity.
   - (* self *) intros a w s x H. destruct (Nat.eq_dec a x) as [->|Hne]; [exfalso; apply H; apply reach_refl|].
     rewrite gett_sett_other; auto.
   - intros. apply core_modt_or. right. reflexivity.
